@@ -125,6 +125,161 @@ def linSearch : Nat → Binding → SSt → List CCall → Bool
 
 def linearizable (s : SSt) (cs : List CCall) : Bool := linSearch cs.length [] s cs
 
+/-! ## protocol model of the wrapper
+
+One `sync.RWMutex` in front of a sequential object.  A goroutine runs any sequence of calls; a call is
+
+* writer (`Lock(); defer Unlock(); inner call`): `Lock()` announced (`pending`), acquired when no reader and no
+  writer is inside, the inner call = a first read of the object (snapshot) followed by the commit computed **from the
+  snapshot** (a lost update unless the section is exclusive), `Unlock()`;
+* reader (`RLock(); defer RUnlock(); inner call`): admitted while no writer is inside (permissive w.r.t. pending
+  writers: a superset of Go's behaviours), the inner call = a first read (the linearization point: the result the
+  object gives *now* is logged) and a second read from which the returned result is computed (a traversal reads the
+  object many times: equal only if no writer commits in between), `RUnlock()`.
+
+A global `clock` stamps invocations, linearization points and responses. -/
+namespace TS
+open Hive.Conc
+
+structure RW where
+  readers : Nat
+  writer : Bool
+  pending : Nat
+deriving Repr, DecidableEq
+
+inductive LockKind
+  | w | r
+deriving Repr, DecidableEq
+
+/-- the sequential object behind the wrapper and which lock each of its methods is called under -/
+structure Obj (σ O R : Type) where
+  run : σ → O → σ × R
+  kind : O → LockKind
+
+/-- the sequential meaning of a call through the wrapper: observers leave the object alone -/
+def Obj.seq {σ O R : Type} (B : Obj σ O R) (x : σ) (op : O) : σ × R :=
+  match B.kind op with
+  | .w => B.run x op
+  | .r => (x, (B.run x op).2)
+
+inductive Pc (σ O R : Type)
+  | idle
+  | wWait (op : O) (inv : Nat)
+  | wIn (op : O) (inv : Nat)
+  | wBody (op : O) (inv : Nat) (x : σ)
+  | wOut (op : O) (inv : Nat) (res : R) (lin : Nat)
+  | rIn (op : O) (inv : Nat)
+  | rBody (op : O) (inv : Nat) (x : σ) (lin : Nat)
+  | rOut (op : O) (inv : Nat) (res : R) (lin : Nat)
+
+/-- a completed call as the caller saw it, with the stamp of its linearization point -/
+structure Ret (O R : Type) where
+  op : O
+  res : R
+  inv : Nat
+  lin : Nat
+  ret : Nat
+
+structure Th (σ O R : Type) where
+  pc : Pc σ O R
+  todo : List O
+  rets : List (Ret O R)
+
+/-- an entry of the linearization log -/
+structure LE (O R : Type) where
+  op : O
+  res : R
+  stamp : Nat
+
+structure Sh (σ O R : Type) where
+  rw : RW
+  obj : σ
+  log : List (LE O R)
+  clock : Nat
+
+variable {σ O R : Type}
+
+def Th.start (ops : List O) : Th σ O R := { pc := .idle, todo := ops, rets := [] }
+
+def Sh.start (x : σ) : Sh σ O R := { rw := { readers := 0, writer := false, pending := 0 }, obj := x, log := [], clock := 0 }
+
+def tick (s : Sh σ O R) : Sh σ O R := { s with clock := s.clock + 1 }
+
+def tsStep (B : Obj σ O R) (s : Sh σ O R) (t : Th σ O R) : List (Sh σ O R × Th σ O R) :=
+  match t.pc with
+  | .idle =>
+    match t.todo with
+    | [] => []
+    | op :: rest =>
+      match B.kind op with
+      | .w => [(tick { s with rw := { s.rw with pending := s.rw.pending + 1 } }, { t with pc := .wWait op s.clock, todo := rest })]
+      | .r =>
+        if s.rw.writer then []
+        else [(tick { s with rw := { s.rw with readers := s.rw.readers + 1 } }, { t with pc := .rIn op s.clock, todo := rest })]
+  | .wWait op inv =>
+    if s.rw.readers == 0 && !s.rw.writer then
+      [({ s with rw := { s.rw with writer := true, pending := s.rw.pending - 1 } }, { t with pc := .wIn op inv })]
+    else []
+  | .wIn op inv => [(s, { t with pc := .wBody op inv s.obj })]
+  | .wBody op inv x =>
+    let r := B.run x op
+    [(tick { s with obj := r.1, log := s.log ++ [{ op := op, res := r.2, stamp := s.clock }] }, { t with pc := .wOut op inv r.2 s.clock })]
+  | .wOut op inv res lin =>
+    [(tick { s with rw := { s.rw with writer := false } },
+      { t with pc := .idle, rets := { op := op, res := res, inv := inv, lin := lin, ret := s.clock } :: t.rets })]
+  | .rIn op inv =>
+    [(tick { s with log := s.log ++ [{ op := op, res := (B.run s.obj op).2, stamp := s.clock }] },
+      { t with pc := .rBody op inv s.obj s.clock })]
+  | .rBody op inv _ lin => [(s, { t with pc := .rOut op inv (B.run s.obj op).2 lin })]
+  | .rOut op inv res lin =>
+    [(tick { s with rw := { s.rw with readers := s.rw.readers - 1 } },
+      { t with pc := .idle, rets := { op := op, res := res, inv := inv, lin := lin, ret := s.clock } :: t.rets })]
+
+def tsSys (B : Obj σ O R) : Sys (Sh σ O R) (Th σ O R) := { step := tsStep B }
+
+/-- the log, read as a sequential run of the object from `x`, ends in `y` and returns the logged results -/
+def Replays (B : Obj σ O R) : σ → List (LE O R) → σ → Prop
+  | x, [], y => x = y
+  | x, e :: rest, y => (B.seq x e.op).2 = e.res ∧ Replays B (B.seq x e.op).1 rest y
+
+end TS
+
+/-- the thread-safe list as such an object: the twelve mutating methods under the write lock, the observers
+(`Len`, `Values`/`Range`/`ForEach`, the reverse traversals, `Front`, `Back`) under the read lock; the inner calls are
+the pointer-level model's (`step`, the walks) -/
+inductive LOut
+  | out (o : Out)
+  | n (k : Int)
+  | l (vs : List Nat)
+  | e (id : Nat)
+deriving Repr, DecidableEq
+
+inductive LOp
+  | wr (op : Op)
+  | len (l : Bool)
+  | vals (l : Bool)
+  | rvals (l : Bool)
+  | front (l : Bool)
+  | back (l : Bool)
+deriving Repr, DecidableEq
+
+def listObj : TS.Obj St LOp LOut where
+  run s
+    | .wr op => let r := step s op; (r.1, .out r.2)
+    | .len l => (s, .n (s.len l))
+    | .vals l => (s, .l (values s l))
+    | .rvals l => (s, .l (valuesRev s l))
+    | .front l => (s, .e (front s l))
+    | .back l => (s, .e (back s l))
+  kind
+    | .wr _ => .w
+    | _ => .r
+
+/-- which `sync.RWMutex` call the wrapper method of a call starts with (compared with the regenerated skeletons) -/
+def lockWord : TS.LockKind → String
+  | .w => "lock t.mutex"
+  | .r => "rlock t.mutex"
+
 /-! ### request line `lin CALL*`, `CALL = INV;RET;op;args…;result…` -/
 open Hive.Proto
 
